@@ -206,7 +206,7 @@ func mirrorMain(args mon.Args) {
 					fed = append(fed, mirrorFed{f.ID, f.Addr, f.Dgram})
 				}
 			} else {
-				sc = &scenCase{Sc: scenario{Proto: j.proto, UDPSize: j.size, Workers: []int{1, 3, 8}[ji%3], GoMaxProcs: []int{2, 16}[ji%2]}}
+				sc = &scenCase{Sc: scenario{Proto: j.proto, UDPSize: j.size, OtherUDPSize: 64, Workers: []int{1, 3, 8}[ji%3], GoMaxProcs: []int{2, 16}[ji%2]}}
 				id := 0
 				for n := j.lo; n <= j.hi; n++ {
 					id++
